@@ -436,6 +436,12 @@ theorem invS_step {s s' : St} {l : Label} (h : InvS s) (hs : step s l = some s')
   case sendCancel t =>
     split at hs <;> simp at hs; subst hs; rename_i hp
     exact inv_neutral h t _ (hp.2.2 ▸ neutral_idle) (neutral_xWant _)
+  case watchFire t =>
+    split at hs <;> simp at hs; subst hs; rename_i hp
+    exact inv_neutral h t _ (hp.2.2 ▸ neutral_idle) (neutral_xWant _)
+  case stale t g =>
+    split at hs <;> simp at hs; subst hs; rename_i hp
+    exact inv_neutral h t _ (hp.2 ▸ neutral_idle) (neutral_xWant _)
   all_goals
     (try split at hs) <;> (try split at hs) <;> simp at hs <;> subst hs <;> exact h
 
